@@ -386,6 +386,9 @@ impl VirtualSign<'_> {
     /// Handles `RequestOperation` messages for `StartReset`.
     fn start_reset<'a>(&mut self) -> Message<'a> {
         self.state = State::ReadyToReset;
+        // Abandon any transfer that was in progress.
+        self.pending_data.clear();
+        self.data_chunks = 0;
         Message::AckOperation(self.address, Operation::StartReset)
     }
 
